@@ -23,12 +23,10 @@ from fractions import Fraction as Fr
 from bitstring import Dtype, Array
 
 FUNCTIONAL = True
-LEVEL_TEXT = ("Lean theorems over the tables re-extracted from the working tree on every run: each of the nine code->float tables equals the format definition (sign, biased exponent, mantissa, subnormals, single/signed zero, inf, NaN) on every code; each of the nine float16->code tables holds, at every one of its 65 536 indices, the code of the nearest representable value (ties to the even code, out-of-range/inf/NaN/sign-of-zero as documented per format and mxfp_overflow mode) - kernel-checked entry by entry with a neighbour test proved sound for the declarative nearest-value statement on a strictly increasing grid; float_to_int with its OverflowError clamp branch returns that code for every float64 and both modes; decode-then-encode returns every non-NaN code (except e5m2 inf under saturate); e8m0 accepts exactly NaN and the 255 powers of two; mxint and all 65 536 bfloat codes decode exactly; bfloat encoding is the upper half of the IEEE float32 conversion. Correspondence: every code and every half-precision input of every format and mode through the public API, float64 inputs at ties +-1ulp, beyond 65504, subnormal, inf, NaN, -0.0, scaled dtypes.")
-LEVEL_NOTE = ("Trusted: Lean kernel (+propext, Classical.choice, Quot.sound); harness/extract.py reads the live tables; struct.pack('>e'/'>f'), float64 * / + -, round() and float(int) are modelled by their IEEE-754 meaning (exact result then round-to-nearest-even), not verified; the transcription of the Python is tied by the differential run only. For mxint the nearest-even statement is proved on all representable values and on the two inputs of the fixed finding; for other float64 inputs it rests on the correspondence (exactness of the float64 product 64*f in the runtime model is not proved).")
+LEVEL_TEXT = ("Lean theorems over the tables re-extracted from the working tree on every run: each of the nine code->float tables equals the format definition (sign, biased exponent, mantissa, subnormals, single/signed zero, inf, NaN) on every code; each of the nine float16->code tables holds, at every one of its 65 536 indices, the code of the nearest representable value (ties to the even code, out-of-range/inf/NaN/sign-of-zero as documented per format and mxfp_overflow mode) - kernel-checked entry by entry with a neighbour test proved sound for the declarative nearest-value statement on a strictly increasing grid; float_to_int with its OverflowError clamp branch returns that code for every float64 and both modes; decode-then-encode returns every non-NaN code (except e5m2 inf under saturate); e8m0 accepts exactly NaN and the 255 powers of two; mxint and all 65 536 bfloat codes decode exactly; mxint2bitstore = nearest-even of the exact 64x clipped to [-128,127] for EVERY float64 (structural: multiplication by a power of two is exact in the float model, round() = nearest-even); a power-of-two Dtype scale shifts the exponent exactly in both directions; bfloat encoding is the upper half of the IEEE float32 conversion and decode-then-encode returns every non-NaN bfloat code (structural: round-to-nearest is exact on representable values). Correspondence: every code and every half-precision input of every format and mode through the public API, float64 inputs at ties +-1ulp, beyond 65504, subnormal, inf, NaN, -0.0, scaled dtypes.")
+LEVEL_NOTE = ("Trusted: Lean kernel (+propext, Classical.choice, Quot.sound); harness/extract.py reads the live tables; struct.pack('>e'/'>f'), float64 * / + -, round() and float(int) are modelled by their IEEE-754 meaning (exact result then round-to-nearest-even), not verified; the transcription of the Python is tied by the differential run only.")
 TECHNIQUE = "Lean 4 proof (kernel-checked tables re-extracted each run + soundness of a local nearest-value checker) + exhaustive correspondence"
-NOT_YET_PROVED = ["mxint_rne (mxint2bitstore = nearest-even of 64x with saturation for every float64; proved on all 256 representable values and on the two inputs of the fixed finding; every half-precision input and float64 ties are covered by the correspondence only)",
-                  "bfloat_reencode_fixpoint (bfloat decode-then-encode is the identity on all non-NaN codes: correspondence only - all 65 536 codes in the thorough tier)",
-                  "scaled_pow2_exact (power-of-two scales shift the exponent exactly; covered by correspondence only)"]
+NOT_YET_PROVED = []
 RULE = ("cases = corpus + known-finding witness + gen(): every code of every format (block and single lines), a sweep line per format/mode that runs all 65 536 half-precision inputs through the public API (one line = 65 536 evaluations checked by the oracle, one 256-block of it by the model), stratified half-precision inputs, float64 specials one per line with 11 creation routes, re-encode of every code, scaled dtypes; distinct = distinct case lines")
 TRUSTED = ["CPython struct.pack('>e'/'>f')/unpack and float64 arithmetic follow IEEE 754 round-to-nearest-even (modelled, not verified)"]
 
